@@ -253,6 +253,28 @@ def check_stats(ck: Check, n: int):
         reqs.append(req)
         expect.append((kind, payload, case))
 
+    # nearest-time lookup answers for the times stored NOW, whatever was asked of the same object before: look up, clear, refill with as many
+    # members at other times, look up again; likewise after appending and after replacing the list of times
+    for trial in range(6):
+        etc = EmulsionTimeCourse()
+        m = rng.choice([2, 3, 5])
+        t1 = sorted(rng.uniform(0, 10) for _ in range(m))
+        for t in t1:
+            etc.append(Emulsion([SphericalDroplet(np.zeros(2), 1.0 + t)]), t)
+        tq = rng.uniform(0, 10)
+        etc.get_emulsion(tq)
+        etc.clear()
+        t2 = [10.0 * (k + 1) + rng.uniform(0, 3) for k in range(m)] if trial % 2 == 0 else [t + 0.37 for t in reversed(t1)]
+        for t in t2:
+            etc.append(Emulsion([SphericalDroplet(np.zeros(2), 1.0 + t)]), t)
+        ck.count("nearest_time_after_clear_and_refill")
+        for q2 in (tq, t2[0] - 0.01, t2[-1] + 0.2):
+            got = etc.get_emulsion(q2)
+            want_i = min(range(m), key=lambda k: (abs(t2[k] - q2), k))
+            if got is not etc.emulsions[want_i] and abs(abs(t2[want_i] - q2) - min(abs(t - q2) for t in t2 if t != t2[want_i])) > 1e-9:
+                ck.fail(f"get_emulsion({q2}) after clear() and refilling with times {t2} (earlier times {t1}) returned the member of time "
+                        f"{[t for t, e in zip(etc.times, etc.emulsions) if e is got]}, nearest is {t2[want_i]}", {"check": "stats_definition", "stat": "nearest_time", "history": "clear+refill"},
+                        {"kind": "nearest-history", "times_before": t1, "times_after": t2, "query": q2})
     for _ in range(n):
         dim = rng.choice([1, 2, 3])
         k = rng.choice([0, 1, 2, 5, 9])
